@@ -90,6 +90,18 @@ _ALL["C10"] = {
                   "for non-overlapping lists.",
 }
 
+_ALL["C12"] = {
+    "design_ref": "DESIGN.md §5 C12",
+    "technique": _TECH + "one line pool laid out in two ways (permutation, file boundaries, split over simulated processes) and "
+                         "compared line by line; reader/writer seams with CRLF / missing final newline; prefix-only loss under "
+                         "injected write faults and crashes",
+    "level_text": "Scoped claim: locality (a line's output does not depend on its neighbours, files or runs), structure and "
+                  "prefix-only loss are decided by simulation over sampled pools; token conservation only on the fixed benign "
+                  "vocabulary and the literal context of generated lines.",
+    "level_note": "Trusted: the generator knows each segment's role; extraction matches literals with flexible inner whitespace only "
+                  "when the password or word stage is on.",
+}
+
 CHECKS = []
 
 NOT_APPLICABLE = [
@@ -110,8 +122,8 @@ NOTES = ("All claimed checks are exploration-level deterministic simulations (se
          "scratch copy (sensitivity self-test only). Exit 2 = harness error, never reported as success.")
 
 
-CLAIMED = ["C02", "C03", "C07", "C08", "C10", "C13", "C16", "C17"]
-PENDING = ["C12"]
+CLAIMED = ["C02", "C03", "C07", "C08", "C10", "C12", "C13", "C16", "C17"]
+PENDING = []
 
 CHECKS[:] = [dict(_ALL[p], property_id=p) for p in CLAIMED]
 NOT_APPLICABLE += [{"property_id": p, "reason": "claimed in DESIGN.md; its check is not built yet in this commit (work in "
